@@ -626,29 +626,46 @@ class SymStr(list):
 
     __hash__ = None  # type: ignore
 
-    def encode(self, enc="ascii"):
+    def encode(self, enc="ascii", errors="strict"):
+        codec = str(enc).lower().replace("_", "-")
+        top = {"ascii": 127, "us-ascii": 127, "utf-8": 127, "utf8": 127, "latin-1": 255, "latin1": 255, "iso-8859-1": 255}.get(codec)
+        if top is None or errors != "strict":
+            raise EngineLimit(f"encode with codec {enc!r} / errors {errors!r}")
         out = SymByteArray()
         for c in self:
             if type(c) is SymInt:
-                if c.hi > 127 or c.lo < 0:
-                    if (c > 127) or (c < 0):
-                        raise UnicodeEncodeError("ascii", "", 0, 1, "ordinal not in range(128)")
-            elif not 0 <= c <= 127:
-                raise UnicodeEncodeError("ascii", "", 0, 1, "ordinal not in range(128)")
+                if c.hi > top or c.lo < 0:
+                    if (c > top) or (c < 0):
+                        if codec in ("utf-8", "utf8"):
+                            raise EngineLimit("utf-8 encoding of a code point above 127")
+                        raise UnicodeEncodeError(codec, "", 0, 1, f"ordinal not in range({top + 1})")
+            elif not 0 <= c <= top:
+                if codec in ("utf-8", "utf8"):
+                    raise EngineLimit("utf-8 encoding of a code point above 127")
+                raise UnicodeEncodeError(codec, "", 0, 1, f"ordinal not in range({top + 1})")
             out.append(c)
         return out
 
 
 class SymByteArray(list):
-    def decode(self, enc="ascii"):
-        if enc != "ascii":
-            raise EngineLimit("decode with non-ascii codec")
+    def decode(self, enc="ascii", errors="strict"):
+        codec = str(enc).lower().replace("_", "-")
+        if errors != "strict":
+            raise EngineLimit(f"decode with errors={errors!r}")
+        if codec in ("latin-1", "latin1", "iso-8859-1"):
+            return SymStr(self)                     # every byte is its own code point
+        if codec not in ("ascii", "us-ascii", "utf-8", "utf8"):
+            raise EngineLimit(f"decode with codec {enc!r}")
         for b in self:
             if type(b) is SymInt:
                 if b.hi > 127:
                     if b > 127:
+                        if codec in ("utf-8", "utf8"):
+                            raise EngineLimit("utf-8 decoding of a byte above 127")
                         raise UnicodeDecodeError("ascii", b"", 0, 1, "ordinal not in range(128)")
             elif b > 127:
+                if codec in ("utf-8", "utf8"):
+                    raise EngineLimit("utf-8 decoding of a byte above 127")
                 raise UnicodeDecodeError("ascii", b"", 0, 1, "ordinal not in range(128)")
         return SymStr(self)
 
